@@ -492,6 +492,31 @@ def check_protocol(res, rule, ctx, name, body, succ, kind, spec, observe, what):
             res.bad(Finding(rule, fid, "%s: %s child (%s) is unconditional" % (name, groups[s], mir.last_seg(mir.callee(t) or "?")),
                             "the %s at exit contains the effects of the %s child whichever way the condition goes (untaken code is not silent)" % (what, groups[s]), t["sp"]))
             bad = True
+    # every record that takes part in a merge descends from the record this piece of code was entered with: a record
+    # captured elsewhere (an upvar of a closure, another argument) is stale - whatever was raised since it was taken is
+    # dropped when that side of the merge is selected
+    def foreign(v, seen=None):
+        seen = seen or set()
+        base = v[0]
+        if isinstance(base, tuple) and base and base[0] == "E":
+            return base[1]
+        if isinstance(base, tuple) and base and base[0] == "M" and base not in seen:
+            seen.add(base)
+            for (va, vb) in r.mux_ops.get(base[1], ()):
+                for x_ in (va, vb):
+                    fo = foreign(x_, seen)
+                    if fo is not None:
+                        return fo
+        return None
+    for site, pairs in r.mux_ops.items():
+        for (va, vb) in pairs:
+            for v in (va, vb):
+                fo = foreign(v)
+                if fo is not None:
+                    res.bad(Finding(rule, fid, "%s: merge operand is a %s captured outside this code" % (name, what),
+                                    "one operand of the merge does not descend from the %s this code was entered with (it comes from %s): everything recorded between taking that copy and this merge "
+                                    "is dropped when this side is selected" % (what, fo,), r.mux_spans[site]))
+                    bad = True
     # exclusivity of then / else
     if kind == "if":
         for site, pairs in r.mux_ops.items():
